@@ -59,6 +59,13 @@ Theorem C15_generated_views : forall ENV b p l,
   (x <- Gen.Alloc.box_bytes_into_raw_parts ENV b ;; Gen.Alloc.box_bytes_from_raw_parts ENV (fst x) (snd x)) = Ret b.
 Proof. exact gen_box_bytes_views. Qed.
 
+(* the public functions box_bytes_of / try_from_box_bytes as translated: the impl for [T] when the type
+   argument is a slice (flag `u`), the impl for T otherwise — so every statement above is about them *)
+Theorem C15_generated_public : forall ENV T u c b,
+  Gen.Alloc.box_bytes_of ENV T u c = Ret (if u then box_bytes_of_slice T c else box_bytes_of_sized T c) /\
+  Gen.Alloc.try_from_box_bytes ENV T u b = Ret (if u then try_from_box_bytes_slice T b else try_from_box_bytes_sized T b).
+Proof. exact gen_box_bytes_public. Qed.
+
 Example C15_nonvacuous :
   bb_drop (box_bytes_of_slice (mkTy 4 4) (mkCont 64 0 0)) = None /\
   bb_drop (box_bytes_of_slice (mkTy 4 4) (mkCont 64 3 3)) = Some (mkLayout 12 4).
@@ -73,3 +80,4 @@ Print Assumptions C15_roundtrip_slice.
 Print Assumptions C15_generated.
 Print Assumptions C15_generated_drop_exact.
 Print Assumptions C15_generated_views.
+Print Assumptions C15_generated_public.
